@@ -39,7 +39,7 @@ def plan(tier, seed):
             tasks.append((name, ("strings", an, L, sh)))
     scopes.append({"name": "collections", "desc": "get_alphabet_from_selfies on every combination (with repetition) of "
                                                   "<= 3 strings out of all dotted strings with <= 2 symbols over the first "
-                                                  "alphabet, passed as list, tuple and generator"})
+                                                  "alphabet, passed as list, tuple, generator, iterator, map object and dict key view"})
     for k in range(16):
         tasks.append(("collections", ("coll", k, 16)))
     Ls = 7 if thorough else 6
@@ -138,8 +138,8 @@ def run(task):
                 r.transitions += 1
                 exp = set().union(*[toks[i] for i in comb]) if comb else set()
                 strs = [base[i] for i in comb]
-                form = cnt // nsh % 3
-                arg_ = strs if form == 0 else (tuple(strs) if form == 1 else (x for x in strs))
+                form = cnt // nsh % 6       # every documented "Iterable[str]" shape in rotation
+                arg_ = (strs, tuple(strs), (x for x in strs), iter(strs), map(str, strs), dict.fromkeys(strs).keys())[form]
                 try:
                     got = _SF.get_alphabet_from_selfies(arg_)
                 except Exception as e:
